@@ -59,6 +59,13 @@ T = [
  ('C02-r2m4', '/tmp/mut-R2d/mutants/4', 'C02', [('demo_test.rs', 'src/tests/sim_tests/mod.rs', M, 'mut4_tap_dance_eager')]),
  ('C02-r2m5', '/tmp/mut-R2d/mutants/5', 'C02', [('demo_test.rs', 'src/tests/sim_tests/mod.rs', M, 'mut5_dynamic_macro')]),
  ('C02-r2m6', '/tmp/mut-R2d/mutants/6', 'C02', [('demo_test.rs', 'src/tests/sim_tests/mod.rs', M, 'mut6_largest')]),
+ # ---- round 3 ("two cooperating sites")
+ ('C06-r3m1', '/tmp/mut-R3/mutants/1', 'C06', [('demo_test.rs', 'src/tests/sim_tests/oneshot_tests.rs', M, 'r3m1_')]),
+ ('C02-r3m2', '/tmp/mut-R3/mutants/2', 'C02', [('demo_test.rs', 'src/tests/sim_tests/layer_sim_tests.rs', M, 'r3m2_')]),
+ ('C10-r3m3', '/tmp/mut-R3/mutants/3', 'C10', [('demo_test.rs', 'src/tests/sim_tests/switch_sim_tests.rs', M, 'r3m3_')]),
+ ('C19-r3m4', '/tmp/mut-R3/mutants/4', 'C19', [('demo_test.rs', 'src/tests/sim_tests/macro_sim_tests.rs', M, 'r3m4_')]),
+ ('C05-r3m5', '/tmp/mut-R3/mutants/5', 'C05', [('demo_test.rs', 'src/tests/sim_tests/macro_sim_tests.rs', M, 'r3m5_')]),
+ ('C03-r3m6', '/tmp/mut-R3/mutants/6', 'C03', [('demo_test.rs', 'parser/src/cfg/sexpr.rs', P, 'r3m6_')]),
 ]
 ENV = dict(os.environ, CARGO_TARGET_DIR=TGT, CARGO_NET_OFFLINE='true')
 
